@@ -245,6 +245,9 @@ def gen_times(rng, irf, axis, rates):
             x = k * w - SQRT2 + pick(rng, [0.0, 1e-9, -1e-9, 1e-3, -1e-3, 0.3, -0.3])
             switch += 1
         times.append(c + x * w)
+    if rng.random() < 0.15:
+        # an all-integer time axis (np.arange style): handed to the real code with an integer dtype by real_matrix
+        times = [float(round(t)) for t in times]
     if rng.random() < 0.5:
         times.sort()
     return times, switch
@@ -338,7 +341,12 @@ def real_matrix(irf, mc, axis, times):
     a = np.asarray(m.get_a_matrix(ds), dtype=float)
     try:
         with np.errstate(all="ignore"):
-            labels, mat = m.calculate_matrix(ds, np.asarray(axis, dtype=float), np.asarray(times, dtype=float))
+            # a time axis whose values are all integers is handed over with an integer dtype (np.arange-style axes are valid
+            # input; round-2 seeded change C05-6: a scratch buffer allocated with np.empty_like(times) truncated in that case)
+            t_arr = np.asarray(times, dtype=float)
+            if t_arr.size and np.all(t_arr == np.round(t_arr)) and np.all(np.abs(t_arr) < 2 ** 31):
+                t_arr = t_arr.astype(np.int64)
+            labels, mat = m.calculate_matrix(ds, np.asarray(axis, dtype=float), t_arr)
     except Exception as e:  # noqa: BLE001
         return rates, a, list(comps), L.classify_error(e)
     return rates, a, list(labels), np.asarray(mat)
